@@ -31,6 +31,14 @@ CHECKS = {
             "explicit-state exploration of v1/v2 contract life cycles with an independent payout ledger, plus exhaustive (file shape x challenge index x era) enumeration of storage proofs through the real ValidateBlock",
             "(a) Over all explored contract histories (formation shapes, revision kinds, renewals, proofs, expirations, pair blocks, reverts) every contract resolves at most once and creates exactly the outputs of its latest accepted revision (final outputs + rollover on renewal, missed on expiry) with the right maturity; every static rule violation (changed totals, lower revision number, raised missed host value, changed collateral, filesize>capacity, duplicate proofs, proof+outputs) is rejected while its rule-abiding control is accepted. (b) For every file shape and every challenge index in the three v1 leaf eras and v2: the honest proof is accepted and every corruption (other leaf, flipped data/proof hash, dropped/extra hash, other size, other chain index) is rejected.",
             "Known finding registered: the v1 verifier accepts a shorter proof of another leaf in unbalanced trees (consensus rule, not repaired). Legacy era quirks (era-2 exact multiples of 64, empty files before the storage-proof fork) are counted as unspecified, not asserted.", "3/C07"),
+    "C08": ("E1", "model_checking",
+            "exhaustive boundary sweep: every rule x network configuration x every probe height around the bound, through the real ValidateBlock, against an independent rule table",
+            "For every height/time rule of the statement (maturity of every delayed output kind for v1 and v2 spenders, v1 unlock-condition and signature timelocks, v2 above/after/legacy-policy locks compared with the parent height / median of the last 11 timestamps, v1 and v2 revision, proof, expiration and formation windows, v1/v2 transaction version heights) on 12-16 network configurations (maturity delay 0..3 x allow/require placements) the otherwise-valid transaction is rejected at every probed height below the bound and accepted from the bound on (both directions are violations).",
+            "Rule table (Appendix B of DESIGN.md) written from the statement; renewal timing w.r.t. the old contract and v1 proofs at the window-end height are not asserted.", "3/C08"),
+    "C12": ("E2", "exploration",
+            "bounded exhaustive single/pairwise field-mutation enumeration (reflection walk with a complete field classification) over transaction/block templates; all-pairs distinctness of derived IDs; era replay through the real ValidateBlock",
+            "Every single (thorough: pairwise) field mutation of rich v1/v2 transaction templates changes the ID and all derived IDs iff the field is classified effect-bearing (unclassified fields fail the run); all derived-ID kinds x indices x parents are pairwise distinct; sighashes bind purpose (independent preimage model) and era (hash level and end-to-end replay across every era pair); every content mutation of real v1/v2 blocks is rejected or changes the ID, v2 commitments bind every encoded state field and the miner address.",
+            "Classification table written from the statement (Appendix C). Fixed: V2SiafundInput.ClaimAddress was not bound (repo commit 9ffdb79). Known finding: input-less v1 transactions carry no replay prefix (legacy consensus).", "3/C12"),
     "C15": ("E2", "exploration",
             "bounded exhaustive enumeration (all ordered pairs of a boundary set x all operations) against math/big",
             "Every Currency operation on every ordered pair of a boundary set (bit boundaries, limb mixes, divisors of every "
